@@ -380,7 +380,7 @@ func init() {
 			if tier == "thorough" {
 				return 12000
 			}
-			return 1200
+			return 2400
 		},
 		ChunkSize:   40,
 		Rule:        "each case draws a Config (user name, password nil/empty/set, will, keep-alive: the CONNECT that opens every connection) and runs 1-12 goroutines issuing Publish/PublishRetained (header+payload vectored), Subscribe/Unsubscribe/Ping (single buffer) and persisted publishes while the reference broker sends QoS 1/2 messages (so the read routine writes acknowledgements) and connections get replaced (resend); the scripted connection splits writes: accepted byte counts 0, 1, len-1 and PRNG values followed by a deadline expiry (the call continues when a byte was accepted) or a hard error, several splits per packet, spanning the header/payload boundary. Oracle per connection: the byte log decodes (independent codec) into complete packets, each equal byte for byte to the reference encoding of an issued request, a stored record or an owed acknowledgement, optionally followed by ONE incomplete packet that is a true prefix of an issued packet and ends the log; a request that returned nil has its packet in full on some connection. One case in 12 tears the read routine's own acknowledgement (expiry after 1-3 bytes, then an expiry without progress, so the connection stays writable) while 1-3 requests wait on the write lock and the read routine is delayed at the entry of its way offline. One case in 12 replaces the scripted connection by AF_UNIX socket pairs (the net.Buffers writev path) whose peer reads slowly and stalls beyond PauseTimeout: every byte the kernel accepted is read back and must decode into whole packets with byte-exact payloads, a Publish that returned nil must be there in full, a trailing fragment must be a prefix of an issued packet. Non-trivial: at least one write split by the script (sockets: at least one partial write continued after an expiry, seen through a note hook); distinct by goroutines, split kinds fired and connections.",
